@@ -143,3 +143,13 @@ package parser
 //@     invariant faults(p.r) == old(faults(p.r)) && p.r == old(p.r)
 //@     invariant ref(p.buf) == old(ref(p.buf)) || fresh(p.buf)
 //@     decreases len(buf)
+
+// Model of encoding/binary.Read(p, order, data) with a Parser as the reader:
+// binary.Read fills a temporary buffer through io.ReadFull, i.e. through some
+// number of p.Read calls, and decodes it into data.  ASSUMED (the effect of
+// those calls on the parser; the decoded values are arbitrary).
+//@ functype binaryReadModel(p *Parser) (err error)
+//@   requires inv(p)
+//@   ensures err == nil ==> inv(p)
+//@   ensures faults(p.r) >= old(faults(p.r)) && p.r == old(p.r) && (faults(p.r) > old(faults(p.r)) ==> err != nil)
+//@   modifies p.buf, p.from, p.pos, p.used, p.lastRead, p.buf[*], rpos(p.r), faults(p.r)
